@@ -201,6 +201,7 @@ def handle (op : String) (args res : List String) : Option Verdict :=
       verdictOf "Rhumb::MeanSinXi (series)" ([cmp "MeanSinXi" false v (meanSinXi P (ex xy, ex xx) (ex yy, ex yx))].filterMap id)
     | _, _ => .bad "parse"
   | "rh_api" | "rh_solve" => some (.skip "interface / front-end equalities are judged by the harness on the implementation")
+  | "rh_zone" => some (.skip "closed-form zone area on strongly eccentric ellipsoids: judged by the harness oracle on the implementation")
   | _ => none
 
 end GeoVerif.Corr.C09Full
